@@ -424,7 +424,23 @@ func c03R1(c *Ctx) {
 			if !isOptDepth(y) {
 				continue
 			}
-			// x <op> opts.Depth
+			// x <op> opts.Depth;  current.Depth+1 > D  ==  current.Depth >= D (integers)
+			if inc, isInc := x.(*ssa.BinOp); isInc && inc.Op == token.ADD && (op == token.GTR || op == token.LEQ) {
+				var other ssa.Value
+				if k, isK := constInt(inc.Y); isK && k == 1 {
+					other = inc.X
+				} else if k, isK := constInt(inc.X); isK && k == 1 {
+					other = inc.Y
+				}
+				if other != nil && isCurField(other, depthNI) {
+					x = other
+					if op == token.GTR {
+						op = token.GEQ
+					} else {
+						op = token.LSS
+					}
+				}
+			}
 			if !isCurField(x, depthNI) {
 				if c01Slice(x, func(v ssa.Value) bool { return isCurField(v, depthNI) }) {
 					offByOne = "the cut-off compares an expression computed from current.Depth (not current.Depth itself) with opts.Depth"
@@ -1072,6 +1088,11 @@ func c03R4(c *Ctx) {
 }
 
 var c03Mutants = []Mutant{
+	// --- the repository's own test suite stays green under these (verified in a scratch copy) ---
+	{Name: "only-manifest-predecessors-followed", File: "extendedcopy.go",
+		Old: "\t\t\tif !visited.Contains(predecessorKey) {",
+		New: "\t\t\tif !visited.Contains(predecessorKey) && descriptor.IsManifest(predecessor) {", Expect: "C03.R1.find-roots-shape|~.findRoots|every-predecessor-pushed"},
+	// --- below: see the report for which of these the repository's tests also catch ---
 	{Name: "referrers-ignores-artifact-type", File: "registry/repository.go",
 		Old: "\t\t\tnode.ArtifactType = manifest.ArtifactType\n\t\t\tif node.ArtifactType == \"\" {\n\t\t\t\tnode.ArtifactType = manifest.Config.MediaType\n\t\t\t}",
 		New: "\t\t\tnode.ArtifactType = manifest.Config.MediaType", Expect: "C03.R3"},
